@@ -115,6 +115,34 @@ hybiReturnData(char *dst, int len, ws_ctx_t *wsctx, int *nWritten)
 }
 
 /**
+ * Number of frame header bytes (including the mask) that are still missing,
+ * judged by the header bytes received so far.  As long as the length byte
+ * is unknown the shortest possible header is assumed.  Always greater than
+ * zero while the header is incomplete.
+ */
+static int
+hybiHeaderBytesMissing(ws_ctx_t *wsctx)
+{
+  int want = WS_HYBI_HEADER_LEN_SHORT;
+
+  if (wsctx->header.nRead >= 2) {
+    unsigned char lenByte = ((unsigned char)wsctx->codeBufDecode[1]) & 0x7f;
+    if (lenByte == 126) {
+      want = WS_HYBI_HEADER_LEN_EXTENDED;
+    } else if (lenByte == 127) {
+      want = WS_HYBI_HEADER_LEN_LONG;
+    }
+  }
+  return want - wsctx->header.nRead;
+}
+
+static int
+hybiIsTemporaryReadError(int err)
+{
+  return err == EAGAIN || err == EWOULDBLOCK || err == EINTR;
+}
+
+/**
  * Read an RFC 6455 websocket frame (IETF hybi working group).
  *
  * Internal state is updated according to bytes received and the
@@ -131,8 +159,7 @@ hybiReadHeader(ws_ctx_t *wsctx, int *sockRet, int *nPayload)
 {
   int ret;
   char *headerDst = wsctx->codeBufDecode + wsctx->header.nRead;
-  int n = ((uint64_t)WS_HYBI_HEADER_LEN_SHORT) - wsctx->header.nRead;
-
+  int n = hybiHeaderBytesMissing(wsctx);
 
   ws_dbg("header_read to %p with len=%d\n", headerDst, n);
   ret = wsctx->ctxInfo.readFunc(wsctx->ctxInfo.ctxPtr, headerDst, n);
@@ -141,6 +168,10 @@ hybiReadHeader(ws_ctx_t *wsctx, int *sockRet, int *nPayload)
     if (-1 == ret) {
       /* save errno because rfbErr() will tamper it */
       int olderrno = errno;
+      if (hybiIsTemporaryReadError(olderrno)) {
+        /* nothing to read right now; keep the header bytes we already have */
+        goto ret_header_pending;
+      }
       rfbErr("%s: read; %s\n", __func__, strerror(errno));
       errno = olderrno;
       goto err_cleanup_state;
@@ -216,18 +247,18 @@ hybiReadHeader(ws_ctx_t *wsctx, int *sockRet, int *nPayload)
   }
 
   /* Read now the rest of the frame header, if it is longer as the minimum */
-  if ((wsctx->header.payloadLen == 126) || (wsctx->header.payloadLen == 127)) {
+  if (((wsctx->header.payloadLen == 126) || (wsctx->header.payloadLen == 127))
+      && (n = hybiHeaderBytesMissing(wsctx)) > 0) {
     headerDst = wsctx->codeBufDecode + wsctx->header.nRead;
-    if (wsctx->header.payloadLen == 126) {
-      n = ((uint64_t)WS_HYBI_HEADER_LEN_EXTENDED) - wsctx->header.nRead;
-    } else if (wsctx->header.payloadLen == 127) {
-      n = ((uint64_t)WS_HYBI_HEADER_LEN_LONG) - wsctx->header.nRead;
-    }
     ret = wsctx->ctxInfo.readFunc(wsctx->ctxInfo.ctxPtr, headerDst, n);
     if (ret <= 0) {
       if (-1 == ret) {
         /* save errno because rfbErr() will tamper it */
         int olderrno = errno;
+        if (hybiIsTemporaryReadError(olderrno)) {
+          /* rest of the header not there yet; keep what we have */
+          goto ret_header_pending;
+        }
         rfbErr("%s: read; %s\n", __func__, strerror(errno));
         errno = olderrno;
         goto err_cleanup_state;
@@ -371,6 +402,13 @@ hybiReadAndDecode(ws_ctx_t *wsctx, char *dst, int len, int *sockRet, int nInBuf)
     /* decode more data */
     if (-1 == (n = wsctx->ctxInfo.readFunc(wsctx->ctxInfo.ctxPtr, wsctx->writePos, nextRead))) {
       int olderrno = errno;
+      if (hybiIsTemporaryReadError(olderrno)) {
+        /* no payload available right now: undo the carry-over copy and
+         * keep the state of the frame, the caller will try again */
+        wsctx->writePos -= wsctx->carrylen;
+        *sockRet = -1;
+        return wsctx->hybiDecodeState;
+      }
       rfbErr("%s: read; %s", __func__, strerror(errno));
       errno = olderrno;
       *sockRet = -1;
